@@ -23,7 +23,7 @@ RULE = (
 )
 ASSUMPTIONS = ["responder model follows the check precedence given in the statement of C16"]
 FLOORS = {"quick": {"messages": 12000, "decision_classes": 4400, "replies_decoded": 5000,
-                    "multicast_silent": 1000, "multi_message_datagrams": 300,
+                    "multicast_silent": 1000, "multi_message_datagrams": 300, "replies_sent_back_to_the_service": 1500,
                     "datagrams_handled_with_debug_logging_on": 5000, "datagrams_handled_with_debug_logging_off": 5000}}
 
 SID, MAJ, MINOR = 0x1234, 3, 7
@@ -172,6 +172,19 @@ def check_datagram(svc, calls, msgs, multicast, addr, ctx, replay):
         elif g["payload"] != e["payload"]:
             mech = "wrong-reply-payload"
         ctx.violation(mech, dict(index=i, got=g, expected=e, multicast=multicast, msgs=msgs), replay)
+    # a peer may send the service's own reply straight back (a confused or looping client), or another client may send a
+    # RESPONSE / ERROR with just these ids: it is an ordinary unicast message with a non-request type and is answered as such
+    _COUNTER[0] += 1
+    n = _COUNTER[0]
+    if got and not replay.get("echo") and not replay.get("no_echo") and len(tr.sent) == len(got) and n % 3 == 0:
+        echo = [dict((k, v) for k, v in g.items() if k != "pv") for g in got]
+        ctx.count("replies_sent_back_to_the_service")
+        back = addr if n % 2 else ("192.0.2.77", 40077)
+        check_datagram(svc, calls, echo, False, back, ctx,
+                       dict(msgs=echo, multicast=False, addr=back, echo=True, first=msgs, first_multicast=multicast, first_addr=addr))
+
+
+_COUNTER = [0]
 
 
 def gen_fields(rng):
@@ -240,5 +253,9 @@ def run(spec, ctx):
 def replay(doc, ctx):
     svc, calls = make_service()
     addr = tuple(doc["addr"])
+    if doc.get("first"):
+        # the message whose replies are sent back comes first
+        check_datagram(svc, calls, doc["first"], doc["first_multicast"], tuple(doc["first_addr"]), ctx,
+                       dict(msgs=doc["first"], multicast=doc["first_multicast"], addr=doc["first_addr"], no_echo=True))
     check_datagram(svc, calls, doc["msgs"], doc["multicast"], addr, ctx, doc)
     ctx.case(("replay",), True)
